@@ -1,8 +1,18 @@
 """C12 / C13 — rank-aware and composed-epoch samplers: case generator, real-code runner with a recording torch proxy,
-property oracles (independent of the Lean model)."""
+property oracles (independent of the Lean model).
+
+A case = a sampler CONFIGURATION (what the model and the property speak about) + optionally a SITUATION it runs in (process
+environment, shared input objects, history of the dataset object, other live sampler objects, copies of used objects; see `run_real`).
+The situation is never an input of the model or of the oracle: whatever it is, the explicitly constructed ranks have to produce the
+streams the property promises for the configuration."""
+import copy
 import itertools
 import json
+import os
+import pickle
 import random
+import subprocess
+import sys
 import time
 from contextlib import contextmanager
 from pathlib import Path
@@ -36,7 +46,37 @@ class _RecGen:
         return self
 
     def __getattr__(self, k):
+        if k.startswith("_"):      # half-built copies (deepcopy / unpickling) must not recurse through `_real`
+            raise AttributeError(k)
         return getattr(self._real, k)
+
+    # a sampler object that keeps its generator is copied / pickled together with it: the copy draws from a generator with the
+    # same state and keeps reporting to the recorder of the run
+    def _clone(self):
+        g = _RecGen.__new__(_RecGen)
+        g._rec, g.ordinal = self._rec, self.ordinal
+        if hasattr(self, "last_seed"):
+            g.last_seed = self.last_seed
+        g._real = self._rec.torch.Generator(device=self._real.device)
+        g._real.set_state(self._real.get_state())
+        return g
+
+    def __deepcopy__(self, memo):
+        return self._clone()
+
+    def __copy__(self):
+        return self._clone()
+
+    def __reduce__(self):
+        _PICKLED_GENS.append(self._clone())
+        return _unpickle_gen, (len(_PICKLED_GENS) - 1,)
+
+
+_PICKLED_GENS = []      # pickling happens in-process only (pickle.loads(pickle.dumps(sampler))): the clone is handed over by position
+
+
+def _unpickle_gen(i):
+    return _PICKLED_GENS[i]._clone()
 
 
 _REC_TENSOR_CLS = {}
@@ -170,6 +210,42 @@ def recording(rec):
                 m.torch = s
 
 
+@contextmanager
+def unrecorded():
+    """inside `recording`: switch the sampler modules back to the real torch while OTHER objects (bystanders) are driven"""
+    import torch
+    mods = _patched_modules()
+    cur = [m.__dict__.get("torch") for m in mods]
+    try:
+        for m, c in zip(mods, cur):
+            if c is not None:
+                m.torch = torch
+        yield
+    finally:
+        for m, c in zip(mods, cur):
+            if c is not None:
+                m.torch = c
+
+
+@contextmanager
+def environment(env):
+    """process environment of the case (launcher variables such as RANK / WORLD_SIZE) for the duration of a run"""
+    if not env:
+        yield
+        return
+    saved = {k: os.environ.get(k) for k in env}
+    try:
+        for k, v in env.items():
+            os.environ[k] = str(v)
+        yield
+    finally:
+        for k, v in saved.items():
+            if v is None:
+                os.environ.pop(k, None)
+            else:
+                os.environ[k] = v
+
+
 # ----------------------------------------------------------------------------------------------
 # real code runner
 # ----------------------------------------------------------------------------------------------
@@ -181,25 +257,48 @@ class _LenDS:
         return self.n
 
 
-def _class_ds(case):
-    """tiny KDDataset with a class per sample (same accessors as tests_util.datasets.ClassDataset); the bulk accessor
-    returns list / tensor / ndarray"""
+_DS_CLS = {}
+
+
+def _ds_classes():
+    """module-level (picklable) tiny KDDatasets with a class per sample (same accessors as tests_util.datasets.ClassDataset);
+    `_KdvClassDS` has the bulk accessor (returns list / tensor / ndarray, freshly built or -- `*-own` -- the dataset's own storage),
+    `_KdvClassDSNoBulk` has none: the samplers have to load the labels sample-wise (slow path of utils/getall_as_tensor.py)"""
+    if "bulk" in _DS_CLS:
+        return _DS_CLS["bulk"], _DS_CLS["nobulk"]
     import numpy as np
     import torch
     from kappadata.datasets.kd_dataset import KDDataset
 
-    fmt = case.get("fmt", "list")
+    def pack(classes, fmt):
+        if fmt == "tensor-own":
+            return torch.tensor(list(classes), dtype=torch.int64)
+        if fmt == "numpy-own":
+            return np.array(list(classes), dtype=np.int64)
+        return list(classes)
 
-    class DS(KDDataset):
-        def __init__(self, classes, n_classes=None):
+    class _KdvClassDSNoBulk(KDDataset):
+        def __init__(self, classes, n_classes=None, fmt="list"):
             super().__init__()
-            self.classes, self._n_classes = classes, n_classes
+            self.fmt, self._n_classes = fmt, n_classes
+            self.classes = pack(classes, fmt)
+
+        def set_labels(self, classes, how="rebind"):
+            """the labels of this dataset object change (pseudo labelling, label cleaning, new samples): in place or by rebinding"""
+            new = pack(classes, self.fmt)
+            if how == "inplace" and len(new) == len(self.classes):
+                if isinstance(self.classes, list):
+                    self.classes[:] = new
+                else:
+                    self.classes[...] = new
+            else:
+                self.classes = new
 
         def getitem_class(self, idx, ctx=None):
             return self.classes[idx]
 
         def getshape_class(self):
-            n_classes = self._n_classes or max(self.classes) + 1
+            n_classes = self._n_classes or int(max(self.classes)) + 1
             if n_classes == 2:
                 n_classes = 1
             return n_classes,
@@ -207,28 +306,101 @@ def _class_ds(case):
         def __len__(self):
             return len(self.classes)
 
+    class _KdvClassDS(_KdvClassDSNoBulk):
         def getall_class(self):
+            fmt = self.fmt
+            if fmt.endswith("-own"):
+                return self.classes
             if fmt == "tensor":
                 return torch.tensor(self.classes)
+            if fmt == "tensor32":
+                return torch.tensor(self.classes, dtype=torch.int32)
             if fmt == "numpy":
                 return np.array(self.classes)
+            if fmt == "numpy32":
+                return np.array(self.classes, dtype=np.int32)
             return list(self.classes)
 
-    if fmt == "none":
-        # no bulk accessor: the samplers have to load the labels sample-wise (slow path of utils/getall_as_tensor.py)
-        del DS.getall_class
-    if case.get("view"):
+    for c in (_KdvClassDSNoBulk, _KdvClassDS):
+        c.__module__, c.__qualname__ = __name__, c.__name__
+        globals()[c.__name__] = c
+    _DS_CLS["bulk"], _DS_CLS["nobulk"] = _KdvClassDS, _KdvClassDSNoBulk
+    return _KdvClassDS, _KdvClassDSNoBulk
+
+
+def _warm_up(case, ds, root):
+    """history of the dataset OBJECT before the sampler under test exists: everything in the package that reads the class list looked
+    at it in its earlier state (bulk helpers, a sampler of the same kind and configuration, a wrapper). Nothing here is judged."""
+    try:
+        import kappadata.utils.getall_as_tensor as ga
+        fns = [getattr(ga, n) for n in ("getall", "getall_as_list", "getall_as_numpy", "getall_as_tensor") if hasattr(ga, n)]
+    except Exception:  # noqa
+        fns = []
+    for f in fns:
+        for d in ([ds] if ds is root else [ds, root]):
+            for kw in ({}, {"item": "class"}):
+                try:
+                    f(d, **kw)
+                except Exception:  # noqa
+                    pass
+    for d in ([ds] if ds is root else [ds, root]):
+        try:
+            d.getdim_class()
+            d.getshape_class()
+        except Exception:  # noqa
+            pass
+    try:
+        s = build_real(case, 0, max(case.get("W") or 1, 1), ds=ds)
+        s.set_epoch(1)
+        list(itertools.islice(iter(s), MAX_OUT))
+        len(s)
+    except Exception:  # noqa
+        pass
+    try:
+        from kappadata.wrappers import OversamplingWrapper
+        OversamplingWrapper(ds)
+    except Exception:  # noqa
+        pass
+
+
+def _class_ds(case):
+    """the dataset of a case. `view`: the sampler is built on a view (SubsetWrapper, 2 = view of a view) of a root object whose labels
+    were loaded before; `prev`: the dataset object carried the labels `prev` first, was looked at by the package (`_warm_up`), then its
+    labels changed to the case's class list (`mut`: in place / rebound; `newview`: the view is re-created afterwards). The sampler
+    under test is always constructed AFTER the change, so the class list it has to follow is the case's."""
+    from kappadata.wrappers import SubsetWrapper
+    from kappadata.utils.getall_as_tensor import getall_as_tensor
+    bulk, nobulk = _ds_classes()
+    fmt = case.get("fmt", "list")
+    DS = nobulk if fmt == "none" else bulk
+    classes = list(case["classes"])
+    prev = case.get("prev")
+    view = case.get("view")
+    if view and prev is not None and len(prev) != len(classes):
+        prev = (list(prev) + classes)[:len(classes)]
+    first = list(prev) if prev is not None else classes
+    if view:
         # history: the labels of the ROOT dataset were loaded before (a sampler on the full dataset), then the sampler under test
         # is built on a view (SubsetWrapper) of the same root object; the view's class list is the case's class list
-        from kappadata.wrappers import SubsetWrapper
-        from kappadata.utils.getall_as_tensor import getall_as_tensor
-        classes = list(case["classes"])
         n_cls = max(case.get("n_classes") or (max(classes) + 1 if classes else 1), 1)     # all-unlabeled layouts: max + 1 = 0
         extra = [(k * 2 + 1) % n_cls for k in range(len(classes) + 2)]
-        root = DS(classes=extra + classes[::-1], n_classes=n_cls)
+        root = DS(extra + first[::-1], n_cls, fmt)
         getall_as_tensor(root, item="class")
-        return SubsetWrapper(root, indices=[len(extra) + len(classes) - 1 - i for i in range(len(classes))])
-    return DS(classes=list(case["classes"]), n_classes=case.get("n_classes"))
+
+        def mkview():
+            if view == 2:
+                inner = SubsetWrapper(root, indices=list(range(len(extra), len(extra) + len(classes))))
+                return SubsetWrapper(inner, indices=[len(classes) - 1 - i for i in range(len(classes))])
+            return SubsetWrapper(root, indices=[len(extra) + len(classes) - 1 - i for i in range(len(classes))])
+        ds = mkview()
+    else:
+        root = ds = DS(first, case.get("n_classes"), fmt)
+    if prev is not None:
+        _warm_up({k: v for k, v in case.items() if k not in ("prev", "env")}, ds, root)
+        root.set_labels((extra + classes[::-1]) if view else classes, case.get("mut", "rebind"))
+        if view and case.get("newview"):
+            ds = mkview()
+    return ds
 
 
 def _exc_kind(e):
@@ -243,8 +415,14 @@ def _exc_kind(e):
     return f"exc:{type(e).__name__}"
 
 
-def build_real(case, rank, W=None):
-    """constructs the real sampler of `case` for `rank` (world size W, default the case's)"""
+def _weights(case):
+    import torch
+    return torch.tensor(case["weights"], dtype=torch.float32 if case.get("wdtype") == "float32" else torch.float64)
+
+
+def build_real(case, rank, W=None, ds=None, weights=None):
+    """constructs the real sampler of `case` for `rank` (world size W, default the case's); `ds` / `weights`: input objects that
+    are shared with other samplers (default: fresh ones)"""
     import torch
     kind = case["kind"]
     W = case.get("W") if W is None else W
@@ -259,16 +437,16 @@ def build_real(case, rank, W=None):
                              num_repeats=case["R"])
     if kind == "cb":
         from kappadata.samplers.class_balanced_sampler import ClassBalancedSampler
-        return ClassBalancedSampler(_class_ds(case), shuffle=case["shuffle"], samples_per_class=case["spc"], seed=case["seed"],
-                                    rank=rank, world_size=W)
+        return ClassBalancedSampler(_class_ds(case) if ds is None else ds, shuffle=case["shuffle"], samples_per_class=case["spc"],
+                                    seed=case["seed"], rank=rank, world_size=W)
     if kind == "weighted":
         from kappadata.samplers.weighted_sampler import WeightedSampler
-        return WeightedSampler(_LenDS(case["n"]), weights=torch.tensor(case["weights"], dtype=torch.float64), size=case["size"],
+        return WeightedSampler(_LenDS(case["n"]), weights=_weights(case) if weights is None else weights, size=case["size"],
                                seed=case["seed"], rank=rank, world_size=W)
     if kind == "semi":
         from kappadata.samplers.semi_sampler import SemiSampler
-        return SemiSampler(_class_ds(case), num_labeled=case["L"], num_unlabeled=case["U"], rank=rank, world_size=W,
-                           seed=case["seed"], length_mode=case["mode"])
+        return SemiSampler(_class_ds(case) if ds is None else ds, num_labeled=case["L"], num_unlabeled=case["U"], rank=rank,
+                           world_size=W, seed=case["seed"], length_mode=case["mode"])
     raise ValueError(kind)
 
 
@@ -281,8 +459,9 @@ def ranks_of(case):
     return list(range(W)) if W else [None]
 
 
-def run_one(sampler, rec, epoch, kind):
-    """one `list(sampler)` after set_epoch(epoch) under the recording proxy"""
+def run_one(sampler, rec, epoch, kind, poke=None):
+    """one `list(sampler)` after set_epoch(epoch) under the recording proxy; `poke()` drives OTHER live objects between set_epoch
+    and the iteration and again after the first index"""
     rec.reset()
     r = {"epoch": epoch}
     with recording(rec):
@@ -293,7 +472,13 @@ def run_one(sampler, rec, epoch, kind):
         try:
             if kind != "rand":
                 sampler.set_epoch(epoch)
-            out = [int(i) for i in itertools.islice(iter(sampler), MAX_OUT + 1)]
+            if poke is not None:
+                poke()
+            out = []
+            for i in itertools.islice(iter(sampler), MAX_OUT + 1):
+                out.append(int(i))
+                if poke is not None and len(out) == 1:
+                    poke()
             if len(out) > MAX_OUT:
                 r["iter"] = "nonterm"
             else:
@@ -304,36 +489,122 @@ def run_one(sampler, rec, epoch, kind):
     return r
 
 
+def _bystander_case(case):
+    """another configuration of the same sampler class (other seed / sizes / world) that is alive and active while the case runs"""
+    k = case["kind"]
+    c = {x: v for x, v in case.items() if x not in ("prev", "env", "bystander", "copies", "ranks", "epochs")}
+    c["seed"] = case["seed"] + 1
+    c["W"] = (case.get("W") or 1) + 1
+    if k == "dist":
+        c["shuffle"], c["R"], c["dl"] = True, 1 + case["R"] % 3, not case["dl"]
+    elif k == "cb":
+        c["shuffle"], c["spc"] = not case["shuffle"], (case["spc"] or 0) + 1
+    elif k == "weighted":
+        c["size"] = max(1, (case["n"] if case["size"] is None else case["size"]) - 1)
+        c["weights"] = list(reversed(case["weights"]))
+    elif k == "semi":
+        c["L"], c["U"] = case["L"] + 1, case["U"] + 1
+        c["mode"] = {"labeled": "unlabeled", "unlabeled": "all"}.get(case["mode"], "labeled")
+    return c
+
+
+class _Bystander:
+    """a second, differently configured sampler of the same class (on the SAME dataset object when the case shares its inputs); it is
+    stepped while the sampler under test runs. Its own output is not judged; exceptions it raises are its own business."""
+
+    def __init__(self, case, ds):
+        self.s, self.it, self.k = None, None, 3
+        try:
+            bc = _bystander_case(case)
+            self.s = build_real(bc, bc["W"] - 1, bc["W"], ds=ds)
+            self.s.set_epoch(self.k)
+            self.it = iter(self.s)
+            next(self.it, None)
+        except Exception:  # noqa
+            self.s = None
+
+    def poke(self):
+        if self.s is None:
+            return
+        with unrecorded():
+            try:
+                self.k += 1
+                self.s.set_epoch(self.k)
+                len(self.s)
+                next(self.it, None)
+                if self.k % 3 == 0:
+                    self.it = iter(self.s)
+                    next(self.it, None)
+            except Exception:  # noqa
+                pass
+
+
+def _copies(s):
+    """(how, copy or None) for a deep copy and a pickle round trip of a USED sampler object (None: the object cannot be copied that
+    way -- not judged)"""
+    out = []
+    for how, f in (("deepcopy", copy.deepcopy), ("pickle", lambda o: pickle.loads(pickle.dumps(o)))):
+        try:
+            out.append((how, f(s)))
+        except BaseException as e:  # noqa
+            if isinstance(e, (KeyboardInterrupt, SystemExit)):
+                raise
+            out.append((how, None))
+    del _PICKLED_GENS[:]
+    return out
+
+
 def run_real(case, W=None, ranks=None, epochs=None):
-    """{'ctor': ..., 'runs': [{rank, epoch, len, iter, out, reqs, tape}]} — one sampler object per rank, epochs via set_epoch"""
+    """{'ctor': ..., 'runs': [{rank, epoch, len, iter, out, reqs, tape}]} — one sampler object per rank, epochs via set_epoch.
+    Case attributes that describe the SITUATION the samplers run in (all optional, never an input of the model):
+      env        process environment (launcher variables) during construction and iteration
+      share      all sampler objects of the case (ranks, fresh/re-used, reference, bystander) get ONE dataset object / weights tensor
+      prev, mut, newview, view, fmt   see _class_ds (label history of the dataset object, views, label containers)
+      bystander  a differently configured sampler of the same class is alive and stepped in between
+      copies     the used object of every rank is deep-copied and pickled; the copies run again ('copies' in the result)"""
+    with environment(case.get("env")):
+        return _run_real(case, W, ranks, epochs)
+
+
+def _run_real(case, W, ranks, epochs):
     rec = Recorder()
     res = {"ctor": "ok", "runs": []}
+    kind = case["kind"]
     ranks = ranks_of(case) if ranks is None else ranks
     epochs = case.get("epochs", list(EPOCHS)) if epochs is None else epochs
-    if case["kind"] == "cb" and "dim" not in case:
+    if kind == "cb" and "dim" not in case:
         case["dim"] = int(_class_ds(case).getdim_class())      # an input of the model (the dataset is not under test)
+    ds = weights = None
+    if case.get("share") or case.get("prev") is not None:
+        if kind in ("cb", "semi"):
+            ds = _class_ds(case)
+        elif kind == "weighted":
+            weights = _weights(case)
+    poke = None
+    if case.get("bystander") and kind != "rand":
+        poke = _Bystander(case, ds).poke
     for rank in ranks:
         try:
             with recording(rec):
-                s = build_real(case, rank, W)
+                s = build_real(case, rank, W, ds=ds, weights=weights)
         except Exception as e:
             res["runs"].append({"rank": rank, "ctor": _exc_kind(e)})
             continue
         for e in epochs:
-            if case["kind"] == "rand":
+            if kind == "rand":
                 # RandomSampler draws its seed from the process-global torch state on every pass: one object, judged per pass
-                r = run_one(s, rec, e, case["kind"])
+                r = run_one(s, rec, e, kind)
             else:
                 # model-vs-code (requests + tape, exact) on a FRESH object for every epoch; the object that is re-used over the
                 # epochs (`s`) must give the same length and stream -- its internal call pattern may differ (correct memoisation),
                 # its output may not (stale state)
                 try:
                     with recording(rec):
-                        fresh = build_real(case, rank, W)
-                    r = run_one(fresh, rec, e, case["kind"])
+                        fresh = build_real(case, rank, W, ds=ds, weights=weights)
+                    r = run_one(fresh, rec, e, kind, poke)
                 except Exception as ex:  # noqa
                     r = {"epoch": e, "len": _exc_kind(ex), "iter": _exc_kind(ex), "reqs": [], "tape": []}
-                rs = run_one(s, rec, e, case["kind"])
+                rs = run_one(s, rec, e, kind, poke)
                 r["_reused"] = {"len": rs["len"], "iter": rs["iter"], "out": rs.get("out")}
                 # a second pass in the SAME epoch without another set_epoch: equal (seed, epoch) must reproduce the draw
                 try:
@@ -342,6 +613,16 @@ def run_real(case, W=None, ranks=None, epochs=None):
                     r["_reused"]["again"] = _exc_kind(ex)
             r["rank"], r["ctor"] = rank, "ok"
             res["runs"].append(r)
+        if case.get("copies") and kind != "rand":
+            # a copy of the used object (what a DataLoader worker / a checkpointed trainer holds) with equal (seed, epoch)
+            for how, c in _copies(s):
+                if c is None:
+                    res.setdefault("copies", []).append({"rank": rank, "how": how, "copy": "failed"})
+                    continue
+                for e in list(dict.fromkeys(epochs))[:2]:
+                    rc = run_one(c, rec, e, kind)
+                    res.setdefault("copies", []).append({"rank": rank, "how": how, "copy": "ok", "epoch": e, "len": rc["len"],
+                                                         "iter": rc["iter"], "out": rc.get("out")})
     return res
 
 
@@ -429,7 +710,9 @@ def in_domain(case):
 
 
 def case_tag(case):
-    c = {k: v for k, v in case.items() if k not in ("epochs", "dim", "weights")}
+    c = {k: v for k, v in case.items() if k not in ("epochs", "dim", "weights", "env")}
+    if case.get("env"):
+        c["env"] = "RANK=%s,WORLD_SIZE=%s,..." % (case["env"].get("RANK"), case["env"].get("WORLD_SIZE"))
     return " ".join(f"{k}={v}" for k, v in c.items())
 
 
@@ -449,6 +732,15 @@ def _unexpected(case, real, pid):
             return Failure(f"{case['kind']}:reused-object", f"a sampler object re-used over the epochs gives another stream / length in epoch "
                            f"{r.get('epoch')} (rank {r['rank']}) than a fresh object with equal (seed, epoch) for {case_tag(case)}", case,
                            {"len": r.get("len"), "out": r.get("out")}, ru)
+    fresh = {(r["rank"], r.get("epoch")): r for r in real["runs"] if r.get("ctor") == "ok" and r.get("iter") == "ok"}
+    for c in real.get("copies", ()):
+        r = fresh.get((c["rank"], c.get("epoch")))
+        if c.get("copy") != "ok" or r is None:
+            continue
+        if c["iter"] != "ok" or c["out"] != r["out"] or c["len"] != r["len"]:
+            return Failure(f"{case['kind']}:copied-object", f"a {c['how']} copy of a used sampler object gives another stream / length in epoch "
+                           f"{c['epoch']} (rank {c['rank']}) than a fresh object with equal (seed, epoch) for {case_tag(case)}", case,
+                           {"len": r["len"], "out": r["out"]}, {"len": c["len"], "iter": c["iter"], "out": c["out"]})
     for r in real["runs"]:
         bad = None
         if r["ctor"] != "ok":
@@ -464,9 +756,15 @@ def _unexpected(case, real, pid):
     return None
 
 
+def _plain(case):
+    """the case without the extra legs that are judged on the main run only (copies, bystander); environment, shared inputs and the
+    history of the dataset object stay"""
+    return {k: v for k, v in case.items() if k not in ("copies", "bystander")}
+
+
 def _reference(case, epoch):
     """the whole global draw of the epoch as the implementation itself produces it on a single rank (world size 1)"""
-    ref = run_real(case, W=1, ranks=[0], epochs=[epoch])["runs"][0]
+    ref = run_real(_plain(case), W=1, ranks=[0], epochs=[epoch])["runs"][0]
     if ref.get("ctor") != "ok" or ref.get("iter") != "ok":
         return None
     return ref
@@ -544,7 +842,7 @@ def oracle_c12(case, real):
         if len(set(vals)) != len(vals):
             return Failure(f"{k}:epoch-seed", f"set_epoch does not change the seed of the draw for {tag}", case, "distinct seeds per epoch", vals)
         # equal (seed, epoch) reproduces the draw: a fresh object on the last rank, epochs in reverse order
-        again = run_real(case, ranks=[W - 1], epochs=list(reversed(epochs)))
+        again = run_real(_plain(case), ranks=[W - 1], epochs=list(reversed(epochs)))
         for r in again["runs"]:
             if r.get("out") != runs[(W - 1, r["epoch"])]["out"]:
                 return Failure(f"{k}:reproduce", f"equal (seed, epoch) does not reproduce the stream for {tag}", case,
@@ -592,6 +890,8 @@ def oracle_c13(case, real):
             if ref is None:
                 return Failure("cb:reference", f"single-rank run fails for {tag}", case, None, None)
             g1 = ref["out"]
+            if any(not (0 <= i < n) for i in g1):
+                return Failure("cb:invalid-index", f"index outside the dataset in the single-rank draw of epoch {e} for {tag}", case, f"0 <= i < {n}", g1)
             pc = [sum(1 for i in g1 if cl[i] == c) for c in range(C)]
             if pc != [spc] * C:
                 return Failure("cb:class-counts", f"global draw does not hold samples_per_class={spc} indices of every class in epoch {e} for {tag}",
@@ -662,6 +962,79 @@ def seed_table_failure(n):
 
 
 # ----------------------------------------------------------------------------------------------
+# a process that was STARTED by a launcher: the environment is there before the package is imported
+# ----------------------------------------------------------------------------------------------
+_ORACLES = {"C12": oracle_c12, "C13": oracle_c13}
+
+
+def _streams(real):
+    return {f"{r['rank']}/{r.get('epoch')}": [r.get("len"), r.get("iter"), r.get("out")] for r in real["runs"] if r.get("ctor") == "ok"}
+
+
+def _child_main():
+    """entry point of the child: stdin = {"pid", "cases"}; stdout = one JSON line with, per case, the oracle's verdict and the streams"""
+    req = json.loads(sys.stdin.read())
+    oracle = _ORACLES[req["pid"]]
+    out = []
+    for case in req["cases"]:
+        try:
+            real = run_real(case)
+            f = oracle(case, real)
+            out.append({"failure": None if f is None else {"key": f.key, "what": f.what, "expected": f.expected, "actual": f.actual},
+                        "streams": _streams(real)})
+        except Exception as e:  # noqa
+            out.append({"crash": f"{type(e).__name__}: {e}"[:300]})
+    sys.stdout.write("\nKDV-CHILD-RESULT " + json.dumps(out, default=str) + "\n")
+
+
+def _run_child(pid, cases, env):
+    """None when the child did not deliver"""
+    try:
+        p = subprocess.run([sys.executable, "-c", "from kdv import samplers as S; S._child_main()"],
+                           input=json.dumps({"pid": pid, "cases": cases}), env={**os.environ, **{k: str(v) for k, v in env.items()}},
+                           capture_output=True, text=True, timeout=300)
+    except subprocess.TimeoutExpired:
+        return None, "timeout"
+    for line in p.stdout.splitlines():
+        if line.startswith("KDV-CHILD-RESULT "):
+            try:
+                return json.loads(line[len("KDV-CHILD-RESULT "):]), ""
+            except ValueError:
+                break
+    return None, (p.stderr or "")[-600:]
+
+
+def launcher_process_failures(pid, cases, env):
+    """the property oracle on `cases` in a NEW python process whose environment carries the launcher variables from the start (no
+    process group is initialised): explicitly constructed ranks must behave as in this process. [Failure]"""
+    from .common import Infra
+    cases = [{k: v for k, v in c.items() if k not in ("env", "dim")} for c in cases]
+    if not cases:
+        return []
+    got, err = _run_child(pid, cases, env)
+    if got is None:
+        plain, err2 = _run_child(pid, cases, {})
+        if plain is None:
+            raise Infra(f"sampler child process does not run: {err2 or err}")
+        return [Failure("launcher-process:crash", "the sampler cases run in a plain child process but not in one started with the launcher "
+                        f"environment {env}: {err[-300:]}", {**cases[0], "launcher_process": env}, "as in a plain process", err[-300:])]
+    out = []
+    for case, g in zip(cases, got):
+        inp = {**case, "launcher_process": env}
+        if "crash" in g:
+            out.append(Failure(f"{case['kind']}:launcher-process", f"case crashes in a process started by a launcher: {g['crash']}", inp, None, g["crash"]))
+        elif g["failure"] is not None:
+            f = g["failure"]
+            out.append(Failure(f["key"], f["what"] + " [in a process started with launcher environment]", inp, f["expected"], f["actual"]))
+        elif case["kind"] != "rand":
+            here = json.loads(json.dumps(_streams(run_real(dict(case))), default=str))
+            if here != g["streams"]:
+                out.append(Failure(f"{case['kind']}:launcher-process", "explicitly constructed ranks give other streams in a process started with "
+                                   f"launcher environment than in a plain one for {case_tag(case)}", inp, here, g["streams"]))
+    return out
+
+
+# ----------------------------------------------------------------------------------------------
 # case generation
 # ----------------------------------------------------------------------------------------------
 def dist_sweep(nmax=12, wmax=5):
@@ -690,7 +1063,71 @@ def gen_layout(rng, C, n):
     return cl
 
 
+LABEL_FMTS = ["list", "list", "tensor", "numpy", "none", "none", "tensor32", "numpy32", "list-own", "tensor-own", "numpy-own"]
+
+
+def launcher_env(rng):
+    """what torchrun / SLURM / mpirun export into a worker process (the process group is NOT initialised in this harness)"""
+    w = rng.choice([2, 2, 3, 4, 8])
+    r = rng.randrange(1, w)
+    return {"RANK": str(r), "LOCAL_RANK": str(r), "WORLD_SIZE": str(w), "LOCAL_WORLD_SIZE": str(w), "SLURM_PROCID": str(r),
+            "SLURM_LOCALID": str(r), "SLURM_NTASKS": str(w), "OMPI_COMM_WORLD_RANK": str(r), "OMPI_COMM_WORLD_SIZE": str(w),
+            "PMI_RANK": str(r), "PMI_SIZE": str(w), "MASTER_ADDR": "127.0.0.1", "MASTER_PORT": "29500"}
+
+
+def gen_prev(rng, classes, lowest, view):
+    """an earlier labelling of the same dataset object: a few labels differ / another layout / another number of samples"""
+    n = len(classes)
+    pool = list(range(lowest, max(max(classes, default=0) + 1, 2)))
+    z = rng.random()
+    if z < 0.5 or n < 2:
+        prev = list(classes)
+        for i in rng.sample(range(n), min(n, rng.randint(1, 3))):
+            prev[i] = rng.choice([x for x in pool if x != prev[i]])
+        return prev
+    if z < 0.8 or view:
+        prev = list(classes)
+        rng.shuffle(prev)
+        if prev == list(classes):
+            prev[0] = rng.choice([x for x in pool if x != prev[0]])
+        return prev
+    if rng.random() < 0.5:
+        return list(classes[:rng.randint(1, n - 1)])
+    return list(classes) + [rng.choice(pool) for _ in range(rng.randint(1, 3))]
+
+
+def add_situation(rng, c):
+    """the situation a configuration runs in (see run_real): process environment, shared input objects, label history of the
+    dataset object, a live bystander, copies of used objects. None of it is an input of the model or of the property."""
+    k = c["kind"]
+    if rng.random() < 0.2:
+        c["env"] = launcher_env(rng)
+    if k == "rand":
+        return c
+    if rng.random() < 0.25:
+        c["bystander"] = True
+    if rng.random() < 0.3:
+        c["copies"] = True
+    if k in ("cb", "semi", "weighted") and rng.random() < 0.4:
+        c["share"] = True
+    if k == "weighted" and rng.random() < 0.3:
+        c["wdtype"] = "float32"
+    if k in ("cb", "semi"):
+        if c.get("view") and rng.random() < 0.3:
+            c["view"] = 2
+        if rng.random() < 0.3 and c["classes"]:
+            c["prev"] = gen_prev(rng, c["classes"], -1 if k == "semi" else 0, bool(c.get("view")))
+            c["mut"] = rng.choice(["inplace", "rebind"])
+            if c.get("view"):
+                c["newview"] = rng.random() < 0.5
+    return c
+
+
 def gen_case(rng, kind, big=False):
+    return add_situation(rng, _gen_config(rng, kind, big))
+
+
+def _gen_config(rng, kind, big=False):
     """`big`: thorough-tier scope (sizes up to 24, world sizes up to 8)"""
     seed = rng.choice([0, 0, 1, 5, 42, 9243])
     W = rng.choice([1, 2, 2, 3, 3, 4, 5] + ([6, 7, 8] if big else []))
@@ -725,7 +1162,7 @@ def gen_case(rng, kind, big=False):
         C = rng.choice([2, 2, 3, 3, 4])
         n = rng.randint(C, N)
         c = {"kind": "cb", "classes": gen_layout(rng, C, n), "n_classes": None, "shuffle": rng.random() < 0.75,
-             "spc": rng.choice([None, None, 1, 2, 3, 4, 5, 6, 7] + ([9, 12, 17] if big else [])), "seed": seed, "W": W, "fmt": rng.choice(["list", "list", "tensor", "numpy", "none"]),
+             "spc": rng.choice([None, None, 1, 2, 3, 4, 5, 6, 7] + ([9, 12, 17] if big else [])), "seed": seed, "W": W, "fmt": rng.choice(LABEL_FMTS),
              "view": rng.random() < 0.3}
         if odd:
             z = rng.choice(["one-class", "gap", "spc0", "W0", "rank"])
@@ -765,7 +1202,7 @@ def gen_case(rng, kind, big=False):
         cl = [-1] * nu + [rng.randrange(C) for _ in range(n - nu)]
         rng.shuffle(cl)
         c = {"kind": "semi", "classes": cl, "L": rng.randint(1, 3), "U": rng.randint(1, 3), "seed": seed, "W": W,
-             "mode": rng.choice(["labeled", "unlabeled", "all"]), "fmt": rng.choice(["list", "list", "tensor", "numpy", "none"]),
+             "mode": rng.choice(["labeled", "unlabeled", "all"]), "fmt": rng.choice(LABEL_FMTS),
              "view": rng.random() < 0.3}
         if odd:
             z = rng.choice(["L0", "U0", "mode", "nounl", "nolab", "W0"])
@@ -845,6 +1282,15 @@ class SamplersCheck(PropertyCheck):
             for i, c in enumerate(sweep):
                 if c["kind"] == "dist":
                     c["epochs"] = [i % 2, 2 + (i // 2) % 2]
+        srng = random.Random(f"sweep:{self.seed}")
+        for i, c in enumerate(sweep):
+            # a share of the sweep runs in a launcher environment / next to a bystander / again on copies of the used objects
+            if i % 7 == 3:
+                c["env"] = launcher_env(srng)
+            if c["kind"] == "dist" and i % 6 == 2:
+                c["bystander"] = True
+            if c["kind"] == "dist" and i % 8 == 5:
+                c["copies"] = True
         out += sweep
         for k in self.kinds:
             for i in range(self.n_random[self.tier]):
@@ -864,7 +1310,12 @@ class SamplersCheck(PropertyCheck):
                     f"n<=12, num_repeats<=4, replacement, generator given or not) + {self.n_random[self.tier]} seeded random cases per sampler kind "
                     f"{list(self.kinds)} (class layouts <=4 classes, samples_per_class None|1..7, L,U<=3, three length modes, size None|k, W<=5 incl. W>n; thorough: a third of the cases with sizes <=24, W<=8, "
                     "~8% rejection corners); every case = all ranks 0..W-1 as separate objects x epochs via set_epoch; torch draws recorded and replayed "
-                    "into the model; distinct = (kind, sizes, branch, outcome)")
+                    "into the model; distinct = (kind, sizes, branch, outcome). Situations (shares of the cases, never inputs of the model): launcher environment "
+                    "(RANK/WORLD_SIZE/SLURM_*/OMPI_*/PMI_* set, no process group) in-process and once in a child process started with it; one dataset "
+                    "object / weights tensor shared by all sampler objects of the case; label history of the dataset object (earlier labels read by the "
+                    "package's helpers, a sampler, a wrapper; labels then changed in place / rebound; views re-created or kept); label containers list / "
+                    "int64+int32 tensor / ndarray / none / the dataset's own storage; a live differently configured bystander sampler stepped in between; "
+                    "deep copy + pickle round trip of every used sampler object")
         res.exhaustive = self.tier == "thorough"     # the DistributedSampler / RandomSampler sweeps are complete; quick walks them with 2 of 4 epochs
         reals = [run_real(c) for c in cases]
         answers = self.driver.run([model_request(c, r) for c, r in zip(cases, reals)])
@@ -872,6 +1323,11 @@ class SamplersCheck(PropertyCheck):
             res.cases += 1
             res.nontrivial.add(signature(case, real))
             res.bump(f"kind={case['kind']}")
+            for sit in ("env", "share", "prev", "bystander", "copies"):
+                if case.get(sit):
+                    res.bump(f"situation:{sit}")
+            for c in real.get("copies", ()):
+                res.bump(f"copy:{c['how']}={c['copy']}")
             if "runs" not in ans:
                 res.disagreements.append(Disagreement(case, ans, None, "driver error"))
                 continue
@@ -891,9 +1347,25 @@ class SamplersCheck(PropertyCheck):
             if len(res.samples) < 4 and case["kind"] not in [s["case"]["kind"] for s in res.samples] and real["runs"] and real["runs"][0].get("iter") == "ok" \
                     and in_domain(case):
                 res.samples.append({"case": case, "streams": {f"rank{r['rank']}/epoch{r['epoch']}": r["out"] for r in real["runs"][:6]}})
+        self.launcher_leg(res, cases)
         self.extra(res)
         res.failures.sort(key=lambda f: len(json.dumps(f.input, default=str)))
         return res
+
+    def launcher_leg(self, res, cases):
+        """a few in-domain cases of every kind once more in a child process that is started with the launcher environment"""
+        per_kind = 12 if self.tier == "quick" else 60
+        pick = []
+        for k in self.kinds:
+            if k == "rand":      # not rank aware, and its draw depends on the process-global torch state: nothing to compare across processes
+                continue
+            cand = [c for c in cases if c["kind"] == k and in_domain(c) and c.get("W", 1) >= 2]
+            pick += cand[-per_kind:]
+        env = launcher_env(random.Random(f"launcher:{self.seed}"))
+        fails = launcher_process_failures(self.pid, pick, env)
+        res.bump("launcher-process cases", len(pick))
+        for f in fails[:5]:
+            res.failures.append(f)
 
     def extra(self, res):
         pass
@@ -901,6 +1373,9 @@ class SamplersCheck(PropertyCheck):
     def replay_input(self, inp):
         inp = dict(inp)
         inp.pop("dim", None)
+        if inp.get("launcher_process"):
+            env = inp.pop("launcher_process")
+            return (launcher_process_failures(self.pid, [inp], env) or [None])[0]
         return type(self).oracle(inp, run_real(inp))
 
     def search(self, budget_s, hints):
